@@ -31,7 +31,7 @@ func evalExpr(ctx context.Context, v rel.Value) (rel.Value, error) {
 		// code running inside //eval.eval.
 		evaluated, err := EvalWithScope(ctx, ".", val.String(), SafeStdScope())
 		if err != nil {
-			panic(err)
+			return nil, err
 		}
 		return evaluated, nil
 	}
